@@ -5,6 +5,14 @@ COMMON_TRUST = [
 ]
 
 PROPS = {
+    "C02": dict(
+        level_text="Model/Reader.v models tor.Reader's Seek and Read (through Pieces.ReadAt, one piece per call). Theorems for every geometry, range, position and buffer size: the bytes a Read returns are exactly bytes [offset+pos, offset+pos+cnt) of the torrent, inside the reader's range and inside one piece, cnt <= buffer, position advances by cnt, progress whenever possible, EOF exactly at the end of the range (c02_read_exact); Seek as a file's (c02_seek); any sequence of reads returns consecutive ranges (c02_reads_are_consecutive). Tie: random Seek/Read/Close sequences on a real tor.Reader over a fully available real torrent (all offsets, lengths, buffer sizes crossing piece boundaries, short last piece): result, error class and position compared with the model, bytes compared with the torrent's content. Liveness on the real event handler with real peers and an honest, unchoking scripted seed: a read blocks until the data arrives, returns correct data again after its pieces were evicted between reads (twice), fails with the context's error when cancelled and with ErrTorrentDead when the torrent is deleted, within a 6 s watchdog; afterwards neither the reader nor Torrent.requested holds any request (also for a reader in piece 0).",
+        level_note="Liveness is observed on a finite set of scenarios, not proved; HTTP Range handling is net/http's ServeContent over this Reader (exercised by C19/C20's harness only for whole files) and concurrent FUSE reads are serialised by fuse.go's semaphore, neither is modelled here. A range that overruns the torrent is out of scope (Reader reports an error and EOF alternately).",
+        harness="swarm", args=["-prop", "C02"], check_module="ReaderCheck",
+        n_quick=160, n_thorough=2000,
+        trusted=COMMON_TRUST + ["verif hooks tor/export_verif.go (Reader.VerifRequested, VerifRequested, VerifHandleEvent ...)", "the harness's background driver (event pump, request ticker, honest seed answering every request)"],
+        assumptions=["watchdog of 6 s per read is generous on this machine"],
+    ),
     "C04": dict(
         level_text="Theorems over all byte strings (no length bound) about a Gallina model of protocol.Read: never (nil,nil), exact framing, independence from bytes after the frame, errors never over-read, 1 MiB cap, allocation <= 3x frame for messages and for errors raised outside the bencode library; the library's allocate-before-read is refuted with a witness (known finding). The model is tied to the code on every run by decoding ~2000 generated frames (every id x length 0..20 x exact/truncated/over-long, big frames, structured and hostile bencode, random cuts) with protocol.Read and with the model inside Coq and comparing message, bytes consumed, error class and allocation.",
         level_note="Trusted: Coq kernel + vm_compute; Go harness and generators; zeebo/bencode specified not verified; absence of panics observed not proved; allocation tied through TotalAlloc deltas with 8x+64KiB slack.",
